@@ -16,8 +16,14 @@ func (p *Parser) parseMatchAgainst(matchFunc *ast.FunctionCall) (ast.Expression,
 	}
 	p.advance() // Consume (
 
-	// Parse search expression (just the primary — not full expression, to avoid IN being eaten)
+	// Parse search expression (just the primary — not full expression, to avoid IN being eaten).
+	// The primary may itself be MATCH ... AGAINST (...): count the level, parsePrimaryExpression
+	// does not pass through parseExpression's depth check
+	if err := p.enterNesting(); err != nil {
+		return nil, err
+	}
 	searchExpr, err := p.parsePrimaryExpression()
+	p.leaveNesting()
 	if err != nil {
 		return nil, fmt.Errorf("failed to parse AGAINST expression: %w", err)
 	}
